@@ -282,6 +282,47 @@ func ruleR024(pkgFilter func(*packages.Package) bool) func(c *Ctx) {
 						c.Violation(key, call.Pos(), "operator %q is declared commutative, but a custom generator (%s) compiles it with short circuit evaluation: regrouping (c1 %s x) %s c2 changes which operands are evaluated", op, c.posStr(p), op, op)
 						return true
 					}
+					// a relation is no operation: = and <, and everything derived from them (!=, <=, >=, >), map any two
+					// comparable operands to a Bool. Declaring one commutative lets the optimizer regroup
+					// (x op c1) op c2 to x op (c1 op c2), which needs associativity - for a relation the regrouped
+					// expression compares x with a Bool: a value where the original has an error (or the other way round)
+					{
+						relationCtor := func(e ast.Expr) string {
+							e = ast.Unparen(e)
+							if id, ok := e.(*ast.Ident); ok {
+								if v, ok := info.ObjectOf(id).(*types.Var); ok {
+									if rhs, has := singleDefExpr[v]; has {
+										e = ast.Unparen(rhs)
+									}
+								}
+							}
+							if cc, ok := e.(*ast.CallExpr); ok {
+								if cal2 := Callee(info, cc); cal2 != nil && cal2.Pkg() == pkg.Types && (cal2.Name() == "Equal" || cal2.Name() == "Less") {
+									return cal2.Name()
+								}
+							}
+							return ""
+						}
+						rel := relationCtor(call.Args[implIdx])
+						if rel == "" {
+							if fl, ok := ast.Unparen(call.Args[implIdx]).(*ast.FuncLit); ok {
+								ast.Inspect(fl.Body, func(m ast.Node) bool {
+									cc, ok := m.(*ast.CallExpr)
+									if !ok || rel != "" {
+										return true
+									}
+									if sel, ok := ast.Unparen(cc.Fun).(*ast.SelectorExpr); ok && sel.Sel.Name == "Calc" {
+										rel = relationCtor(sel.X)
+									}
+									return true
+								})
+							}
+						}
+						if rel != "" {
+							c.Violation(key, call.Pos(), "operator %q is declared commutative, i.e. the optimizer may regroup (x %s c1) %s c2 to x %s (c1 %s c2), but it is (derived from) the relation %s, which maps any two comparable operands to a Bool: the regrouped expression compares x with a Bool - `x != 1 != 2` is an error for a bool x without the optimizer and a value with it", op, op, op, op, op, rel)
+							return true
+						}
+					}
 					// collect implementation bodies
 					var lits []*ast.FuncLit
 					var pairs [][2]string
